@@ -1018,16 +1018,14 @@ Proof.
     rewrite (Hgen e Hp), (Hgen (with_graffiti_auction e g a) Hp), sign_phase_snd_ga. reflexivity.
 Qed.
 
-Lemma other_slot_refused_unsigned : forall c e d pr,
-  e_proposal e = POk pr -> proposal_slot pr <> Some (d_slot d) ->
+(* a proposal that cannot be signed for this duty: nothing is signed, asked of a relay or submitted *)
+Lemma unsignable_silent : forall c e d,
+  (forall p h, ~ signable e d p h) ->
   (forall ev, In ev (o_events (propose c e d)) -> is_sign_block ev = false)
   /\ all_nil (o_unblind (propose c e d))
   /\ o_submit (propose c e d) = None /\ o_ret (propose c e d) = 0.
 Proof.
-  intros c e d pr Hp Hslot.
-  assert (Hns : forall p h, ~ signable e d p h).
-  { intros p h (Hp'&Hk&Hb&Hs&_). rewrite Hp in Hp'; injection Hp' as <-.
-    apply Hslot. unfold proposal_slot. rewrite Hk, Hb, Hs. reflexivity. }
+  intros c e d Hns.
   pose proof (sign_phase_course c e d) as Hc. destruct (sign_phase c e d) as [evs o] eqn:Hsp.
   assert (Ho : o = None /\ forall ev, In ev evs -> is_sign_block ev = false).
   { inversion Hc; subst; try (exfalso; eapply Hns; eauto; fail).
@@ -1036,6 +1034,17 @@ Proof.
   destruct Ho as (-> & Hev).
   rewrite (propose_unsigned _ _ _ _ Hsp). cbn [o_events o_unblind o_submit o_ret stop].
   repeat split; auto. intros i l Hn; eapply no_calls_nth; eauto.
+Qed.
+
+Lemma other_slot_refused_unsigned : forall c e d pr,
+  e_proposal e = POk pr -> proposal_slot pr <> Some (d_slot d) ->
+  (forall ev, In ev (o_events (propose c e d)) -> is_sign_block ev = false)
+  /\ all_nil (o_unblind (propose c e d))
+  /\ o_submit (propose c e d) = None /\ o_ret (propose c e d) = 0.
+Proof.
+  intros c e d pr Hp Hslot. apply unsignable_silent.
+  intros p h (Hp'&Hk&Hb&Hs&_). rewrite Hp in Hp'; injection Hp' as <-.
+  apply Hslot. unfold proposal_slot. rewrite Hk, Hb, Hs. reflexivity.
 Qed.
 
 (* an incomplete duty (no RANDAO reveal or no account) asks nothing of anybody *)
